@@ -562,7 +562,7 @@ func (in *Interp) zeroOrOpaque(t types.Type, tag string) Value {
 	switch types.Unalias(t).Underlying().(type) {
 	case *types.Pointer:
 		a := &Agg{s: []Value{in.newOpaque(t, tag)}}
-		return PtrV{a, 0}
+		return PtrV{base: a}
 	case *types.Interface:
 		return IfaceV{t: t, v: in.newOpaque(t, tag)}
 	}
@@ -834,7 +834,7 @@ func (in *Interp) exec(g *G, fr *Frame, ins ssa.Instruction) {
 		if !ok {
 			in.abort("FieldAddr: target is not a struct: %s", describe(p.base.s[p.idx]))
 		}
-		in.set(fr, x, PtrV{st, x.Field})
+		in.set(fr, x, PtrV{base: st, idx: x.Field})
 		fr.ip++
 	case *ssa.Index:
 		in.execIndex(g, fr, x)
@@ -890,7 +890,7 @@ func (in *Interp) exec(g *G, fr *Frame, ins ssa.Instruction) {
 			in.set(fr, x, PtrV{})
 		} else if s.off == 0 && len(s.base.s) == n {
 			box := &Agg{s: []Value{s.base}}
-			in.set(fr, x, PtrV{box, 0})
+			in.set(fr, x, PtrV{base: box})
 		} else {
 			in.abort("SliceToArrayPointer into the middle of an array unsupported")
 		}
